@@ -130,45 +130,103 @@ fn judge_outcome(case: &StrCase, out: &Outcome, ctx: &mut Ctx) -> Option<String>
 /// minimal such input, if every single-character deletion returns quickly, the jump (> 10^4 for one character)
 /// is not explained by exponential growth and the call is judged non-terminating.
 fn confirm_hang(case: &StrCase, input: &str, ctx: &mut Ctx) -> Option<String> {
+    // shrinking probes use a smaller budget than the verdict: a variant that needs more than BMIN_MS is "still slow"
+    // and is shrunk further; only the final, minimal input is given the full B2_MS. Long inputs are first cut down in
+    // chunks (halves, quarters, ...), then character by character.
+    const BMIN_MS: u64 = 2_000;
+    const MAX_PROBES: u32 = 400;
+    let mut probes = 0u32;
+    let mut slow_opt = |cs: &[char], ctx: &mut Ctx, budget: u64, no_opt: bool| -> Option<u64> {
+        // None = did not return within the budget; Some(best wall time in us) otherwise
+        let mut job = case.job();
+        job.no_opt = no_opt;
+        job.inputs = vec![cs.iter().collect()];
+        match ctx.w.run_budget(&job, budget) {
+            JobResult::Done(_) => {
+                let mut t = ctx.w.last_wall_us;
+                for _ in 0..2 {
+                    if t < FAST_US {
+                        break;
+                    }
+                    if let JobResult::Done(_) = ctx.w.run_budget(&job, budget) {
+                        t = t.min(ctx.w.last_wall_us);
+                    }
+                }
+                Some(t)
+            }
+            JobResult::Hang | JobResult::Died(_) => None,
+        }
+    };
     let mut cur: Vec<char> = input.chars().collect();
+    let mut chunk = cur.len() / 2;
+    while chunk >= 2 {
+        let mut removed = false;
+        let mut at = 0;
+        while at + chunk <= cur.len() {
+            let cand: Vec<char> = cur[..at].iter().chain(cur[at + chunk..].iter()).cloned().collect();
+            probes += 1;
+            if probes > MAX_PROBES {
+                ctx.obs.label("hang-candidate:shrinking-gave-up");
+                return None;
+            }
+            if slow_opt(&cand, ctx, BMIN_MS, false).is_none() {
+                cur = cand;
+                removed = true;
+            } else {
+                at += chunk;
+            }
+        }
+        if !removed || chunk > cur.len() / 2 {
+            chunk /= 2;
+        }
+    }
     loop {
         if cur.is_empty() {
-            return Some(format!("calls on input {:?} (and on the empty input) did not return within {} ms of CPU", input, B2_MS));
+            return Some(format!("calls on input {:?} (and on the empty input) did not return within {} ms of CPU", input, BMIN_MS));
         }
-        let mut variants: Vec<String> = (0..cur.len())
-            .map(|i| cur.iter().enumerate().filter(|(j, _)| *j != i).map(|(_, c)| *c).collect())
-            .collect();
+        let mut variants: Vec<Vec<char>> = (0..cur.len()).map(|i| cur.iter().enumerate().filter(|(j, _)| *j != i).map(|(_, c)| *c).collect()).collect();
         variants.sort();
         variants.dedup();
         let mut tmax = 0u64;
-        let mut hanging: Option<String> = None;
+        let mut hanging: Option<Vec<char>> = None;
         for v in &variants {
-            let mut job = case.job();
-            job.inputs = vec![v.clone()];
-            match ctx.w.run_budget(&job, B2_MS) {
-                JobResult::Done(_) => {
-                    // wall time is inflated by machine load: take the best of up to three runs
-                    let mut t = ctx.w.last_wall_us;
-                    for _ in 0..2 {
-                        if t < FAST_US {
-                            break;
-                        }
-                        if let JobResult::Done(_) = ctx.w.run_budget(&job, B2_MS) {
-                            t = t.min(ctx.w.last_wall_us);
-                        }
-                    }
-                    tmax = tmax.max(t)
-                }
-                JobResult::Hang | JobResult::Died(_) => {
+            probes += 1;
+            if probes > MAX_PROBES {
+                ctx.obs.label("hang-candidate:shrinking-gave-up");
+                return None;
+            }
+            match slow_opt(v, ctx, BMIN_MS, false) {
+                Some(t) => tmax = tmax.max(t),
+                None => {
                     hanging = Some(v.clone());
                     break;
                 }
             }
         }
         match hanging {
-            Some(v) => cur = v.chars().collect(),
+            Some(v) => cur = v,
             None => {
                 let cur_s: String = cur.iter().collect();
+                // the verdict: the minimal input with the full budget, its neighbours all fast
+                if slow_opt(&cur, ctx, B2_MS, false).is_some() {
+                    return None;
+                }
+                // the neighbours must be fast without the compile-time shortcuts as well: a required literal (a
+                // precondition) makes every neighbour of an exponential, but finite, case return at once
+                let mut tmax_plain = 0u64;
+                for v in &variants {
+                    match slow_opt(v, ctx, BMIN_MS, true) {
+                        Some(t) => tmax_plain = tmax_plain.max(t),
+                        None => tmax_plain = u64::MAX,
+                    }
+                    if tmax_plain >= FAST_US {
+                        break;
+                    }
+                }
+                if tmax_plain >= FAST_US {
+                    ctx.obs.label("hang-candidate:neighbours-slow-without-shortcuts");
+                    return None;
+                }
                 if tmax < FAST_US {
                     return Some(format!(
                         "calls on input {:?} did not return within {} ms of CPU, while on every input with one character removed they return within {} us",
@@ -178,6 +236,25 @@ fn confirm_hang(case: &StrCase, input: &str, ctx: &mut Ctx) -> Option<String> {
                 return None;
             }
         }
+    }
+}
+
+/// every quantifier whose body contains an alternation or another quantifier gets the body `a` instead
+fn tame(n: &Node) -> Node {
+    fn plain(n: &Node) -> bool {
+        match n {
+            Node::Rep { .. } | Node::Alt(_) => false,
+            Node::Group(_, b) => plain(b),
+            Node::Cat(v) => v.iter().all(plain),
+            _ => true,
+        }
+    }
+    match n {
+        Node::Rep { body, min, max, greedy, brace } => Node::Rep { body: Box::new(if plain(body) { (**body).clone() } else { Node::Lit('a') }), min: *min, max: *max, greedy: *greedy, brace: *brace },
+        Node::Group(k, b) => Node::Group(*k, Box::new(tame(b))),
+        Node::Cat(v) => Node::Cat(v.iter().map(tame).collect()),
+        Node::Alt(v) => Node::Alt(v.iter().map(tame).collect()),
+        other => other.clone(),
     }
 }
 
@@ -270,6 +347,24 @@ impl Prop for C06 {
             Part { name: "quantifier-shapes".into(), strategy: shapes_part(), cases: tier.pick(250_000, 5_000_000) },
             Part { name: "dangerous-ast-xsd".into(), strategy: dangerous_part("dangerous-ast-xsd", Dialect::Xsd), cases: tier.pick(50_000, 500_000) },
             Part { name: "huge-minimum".into(), strategy: huge_min_part(), cases: tier.pick(20_000, 200_000) },
+            // long inputs (up to 160 characters), large counts, long literals: loops whose progress depends on a length
+            Part {
+                name: "scaled".into(),
+                strategy: super::c01::scaled_part(&{
+                    let mut c = GenCfg::basic(&['a', 'b', '\n', 'x']);
+                    c.w_anchor = 5;
+                    c
+                }, "ims")
+                .prop_map(|mut ast| {
+                    // quantifiers over single characters only: with inputs this long, a quantifier over an alternation
+                    // or over another quantifier is astronomically slow without being endless, which is not the question
+                    ast.node = tame(&ast.node);
+                    let m = ast.materialize(Dialect::XPath, &[]);
+                    StrCase { dialect: Dialect::XPath, pattern: m.pattern, flags: ast.flags.clone(), inputs: m.inputs, replacements: vec!["x".into()], tag: "scaled".into() }
+                })
+                .boxed(),
+                cases: tier.pick(20_000, 300_000),
+            },
         ]
     }
     fn enumerations(&self, tier: Tier) -> Vec<(String, String, Box<dyn Iterator<Item = StrCase> + Send>)> {
